@@ -546,9 +546,9 @@ def method_name(desc):
     if m == "ufunc":
         return "numpy-ufunc"
     if m == "index":
-        if desc["how"] == "isel_dict":
-            return "isel-positional-dict"
-        return "index-grid-dim" if desc["dim"] in GRID_DIMS else "index"
+        if desc["dim"] in GRID_DIMS:
+            return "index-grid-dim"
+        return "isel-positional-dict" if desc["how"] == "isel_dict" else "index"
     if m == "cum":
         return desc["f"]
     if m in ("rolling", "cumulative"):
@@ -817,7 +817,16 @@ def run_program(env, inp, out, tag="gen", chooser=None, depth=0):
         steps += 1
         path, detail = tr.classify(r)
         # ---- observe the result
-        if m in ("ux_isel", "ux_subset"):
+        grid_aware = (m == "index" and desc["dim"] in GRID_DIMS and isinstance(r, ux.UxDataArray) and cur_grid is not None
+                      and isinstance(getattr(r, "uxgrid", None), ux.Grid) and r.uxgrid is not cur_grid
+                      and desc["dim"] in r.dims)
+        if grid_aware:
+            # REPAIRED positional indexing (fixes/C10-positional-face-indexing-slices-grid.patch): the selection went through
+            # Grid.isel, the result sits on a new sub-grid — in the model this is the by-name operation `gridIsel`
+            # (UxCall.isel); being an xarray operation its values are still compared with the plain twin
+            post = world.observe(r, closed=False, derived=True, detect_share=False)
+            ctx.hit("index-grid-dim:grid-aware:" + desc["dim"] + ":" + desc["how"])
+        elif m in ("ux_isel", "ux_subset"):
             post = world.observe(r, closed=False, derived=True, detect_share=False)
         elif m == "get_dual":
             post = world.observe(r, closed=world.closed[state["grid"]], derived=world.derived[state["grid"]],
@@ -842,6 +851,18 @@ def run_program(env, inp, out, tag="gen", chooser=None, depth=0):
         post_dims = [(str(a), int(b)) for a, b in zip(t_next.dims, t_next.shape)] if t_next is not None else post["dims"]
         mo = model_op(desc, pre_dims, post_dims, extra)
         k = kind_of(desc)
+        if grid_aware:
+            c_ = extra.get("counts", (0, 0, 0))
+            mo = f"19 6 {GRID_DIMS[desc['dim']]} {c_[0]} {c_[1]} {c_[2]}"
+            k = None
+        if m == "get_dual" and post["grid"] >= 0 and state["grid"] >= 0:
+            gd_ = [dd for dd, _ in pre_dims if dd in GRID_DIMS]
+            cnt_ = post["heap"][post["grid"]][0]
+            consistent = all((dd not in GRID_DIMS) or n == cnt_[GRID_DIMS[dd]] for dd, n in post["dims"])
+            if len(gd_) == 1 and gd_[0] != "n_edge" and consistent:
+                # REPAIRED get_dual (fixes/C10-get-dual-drops-nodes-without-dual-face.patch): UxCall.getDualR
+                mo = f"19 12 {cnt_[0]} {cnt_[1]} {cnt_[2]}"
+                ctx.hit("get_dual:repaired-model:" + gd_[0] + (":nodes-dropped" if not extra.get("closed") else ""))
         if k is not None:
             vkey = f"{k}:{name}" + (f"/{desc.get('f') or desc.get('how')}" if (desc.get("f") or desc.get("how")) else "")
             env.variants.setdefault(vkey, f"{path} ({detail})")
@@ -852,7 +873,7 @@ def run_program(env, inp, out, tag="gen", chooser=None, depth=0):
                                           f"table[{k}] = {env.table[k]}"))
         # ---- Lean: the model's step and the verdict of the step specification on the OBSERVED result
         ps, qs = enc_state(state), enc_state(post)
-        xd = enc_dims(post_dims) if not is_ux else "0"
+        xd = enc_dims(post_dims) if not (is_ux or grid_aware) else "0"
         verdict = d.ask("C10.spec", ps, mo, qs, xd)
         model = d.ask("C10.step", env.table_codes(), ps, mo)
         cover = d.ask("C10.cover", env.table_codes(), mo).split()
@@ -911,6 +932,25 @@ def run_program(env, inp, out, tag="gen", chooser=None, depth=0):
                     break
             if pre_dims[-1][0] != gd0:
                 ctx.hit("grid-isel:element-dim-not-last")
+        if m == "get_dual" and bad_values is None and cur_grid is not None and post["grid"] >= 0:
+            # which data the dual carries: face data move to the dual's nodes unchanged; node data are those of the nodes
+            # that get a dual face (>= 3 faces), in node order — computed here from the public node_face_connectivity
+            gd_ = [dd for dd, _ in pre_dims if dd in GRID_DIMS]
+            ref = None
+            try:
+                if gd_ == ["n_face"]:
+                    ref = t.rename({"n_face": "n_node"})
+                elif gd_ == ["n_node"]:
+                    nfc = np.asarray(cur_grid.node_face_connectivity.values)
+                    keep = np.flatnonzero((nfc != common.INT_FILL).sum(axis=1) > 2)
+                    if len(keep) == post["heap"][post["grid"]][0][2]:
+                        ref = t.isel({"n_node": keep}).rename({"n_node": "n_face"})
+            except Exception:
+                ref = None
+            if ref is not None and tuple(map(str, ref.dims)) == tuple(map(str, r.dims)) and ref.shape == r.shape:
+                ctx.hit("get_dual-values:" + gd_[0])
+                if not arrays_equal(np.asarray(r.values), np.asarray(ref.values)):
+                    bad_values = "values (data of the elements that have a counterpart in the dual)"
         clauses = verdict[5:].split(",") if verdict.startswith("fail") else []
         if m == "copy" and desc["how"] in DEEP and post["grid"] >= 0 and cur_grid is not None:
             # "an equal … grid": the library's own Grid.__eq__ on (copy's grid, original grid)
@@ -946,10 +986,20 @@ def run_program(env, inp, out, tag="gen", chooser=None, depth=0):
                             f"{post['heap'][post['grid']][0]}: dimension(s) {bad} do not have the attached grid's count for the element "
                             "kind they are NAMED after")
                 elif m == "get_dual":
-                    sig = "C10/op=get_dual/nodes-with-fewer-than-3-faces/dims-differ-from-dual-grid"
+                    gd_ = [dd for dd, _ in pre_dims if dd in GRID_DIMS]
+                    sig = (f"C10/op=get_dual/centre={gd_[0] if gd_ else '?'}/nodes-with-fewer-than-3-faces/"
+                           "dims-differ-from-dual-grid")
                     what = ("get_dual of a mesh with nodes that have fewer than 3 faces (every partial mesh): the data keep their "
                             f"length but the dual grid has another element count: dims {post['dims']} vs dual counts "
                             f"{post['heap'][post['grid']][0]}")
+                elif m == "index" and desc["dim"] in GRID_DIMS:
+                    # `[]`, isel(indexers=…), isel({…}) reach UxDataArray.isel; head/tail/thin/sel/loc run inside xarray on a
+                    # temporary plain Dataset and come back through `_from_temp_dataset` → `_replace` (indexer no longer known)
+                    via_ = "isel" if desc["how"] in ("getitem", "getitem_dict", "isel_indexers", "isel_dict", "isel_kw") else "temp-dataset"
+                    how_ = f"/via={via_}" if desc["dim"] == "n_face" else ""
+                    sig = f"C10/op=index-grid-dim/dim={desc['dim']}{how_}/path={path}/stale-grid"
+                    what = (f"indexing {desc['dim']} through xarray's own entry point `{desc['how']}` changes its length but the result "
+                            f"keeps the un-sliced grid: dims {post['dims']} vs grid counts {post['heap'][post['grid']][0]}")
                 else:
                     sig = f"C10/op={name}/path={path}/stale-grid"
                     what = (f"{name} ({desc.get('how')}) changes the length of {gd} but the result keeps the un-sliced grid: "
